@@ -1,6 +1,6 @@
 """check configuration for C07 (loaded by lib/zvprops.py)"""
 
-PROP = {'gen_tables': ['SliceOwn'],
+PROP = {'gen_tables': ['SliceOwn', 'TransDerive'],
  'rule': 'ops: derivation programs over a root core (8 fixed compositions — io, observer, tee, sampler, hooks, IncreaseLevel, lazy, With — and '
          'random C05 trees): steps With / WithLazy / WithOptions(Fields) / Named / Sugar / Desugar on plain and sugared loggers, a zapslog handler '
          'branch (WithAttrs / WithGroup / Handle), log calls at any point (derive-after-use, sibling interleavings), mutations of mutable '
